@@ -38,7 +38,18 @@ class B(pg.Object):
     _record_event(self, field_updates)
 
 
+class C(pg.Object):
+  """Test class with an object-typed field that has a default object."""
+  m: A = A()
+  w: Any = None
+  allow_symbolic_assignment = True
+
+  def _on_change(self, field_updates):
+    _record_event(self, field_updates)
+
+
 OKEYS_B = {1: 'z', 2: 'w'}
+OKEYS_C = {1: 'm', 2: 'w'}
 PH = 150
 RF = 160
 SHARED = ['shared', 'plain', 'list']      # the non-symbolic object every pg.Ref leaf points at
@@ -49,6 +60,8 @@ def keymap(o):
     return OKEYS
   if isinstance(o, B):
     return OKEYS_B
+  if isinstance(o, C):
+    return OKEYS_C
   return DKEYS
 
 
@@ -155,6 +168,9 @@ class Replayer:
     if v == 221:
       with pg.allow_writable_accessors(None), pg.as_sealed(None):
         return B.partial()
+    if v == 222:
+      with pg.allow_writable_accessors(None), pg.as_sealed(None):
+        return C()
     if v == 220:
       # building the argument is not the operation under test: keep it out of the scoped overrides
       with pg.allow_writable_accessors(None), pg.as_sealed(None):
@@ -184,7 +200,7 @@ class Replayer:
     o = self.obj[n]
     key = self.key_of(n, k)
     v = self.vd(vd)
-    if isinstance(o, (A, B)):
+    if isinstance(o, (A, B, C)):
       setattr(o, key, v)
     else:
       o[key] = v
@@ -355,7 +371,7 @@ class Replayer:
     kind = st['kind'][n - 1]
     if kind == 'list':
       return [(i, v) for i, v in enumerate(st['litems'][n - 1])]
-    inv = {'obj': OKEYS, 'objb': OKEYS_B}.get(kind, DKEYS)
+    inv = {'obj': OKEYS, 'objb': OKEYS_B, 'objc': OKEYS_C}.get(kind, DKEYS)
     return [(inv[k], v) for k, v in st['ditems'][n - 1]]
 
   def match_value(self, specv, pyv) -> bool:
@@ -429,7 +445,7 @@ class Replayer:
       for (ek, ev), (gk, gv) in zip(exp, got):
         if ek != gk or not self.match_value(ev, gv):
           raise Divergence('content', f'node {n}: spec {exp} impl {got!r}')
-      want_cls = {'dict': pg.Dict, 'list': pg.List, 'obj': A, 'objb': B}[kinds[n - 1]]
+      want_cls = {'dict': pg.Dict, 'list': pg.List, 'obj': A, 'objb': B, 'objc': C}[kinds[n - 1]]
       if type(o) is not want_cls:
         raise Divergence('content', f'node {n}: class {type(o).__name__} expected {want_cls.__name__}')
     # -- returned value
@@ -628,7 +644,7 @@ class Replayer:
           kw['onchange_callback'] = _make_cb(None)
         o = pg.Dict(items, accessor_writable=st['accw'][n - 1], **kw)
       else:
-        cls, km = (A, OKEYS) if k == 'obj' else (B, OKEYS_B)
+        cls, km = {'obj': (A, OKEYS), 'objb': (B, OKEYS_B), 'objc': (C, OKEYS_C)}[k]
         kwargs = {km[kk]: (build(v) if 1 <= v <= n_nodes else leaf(v)) for kk, v in st['ditems'][n - 1]}
         kwargs = {a: b for a, b in kwargs.items() if not (b is pg.MISSING_VALUE or b == pg.MISSING_VALUE)}
         o = cls.partial(**kwargs) if k == 'objb' else cls(**kwargs)
